@@ -742,10 +742,18 @@ func (g *G) assignStmt() {
 			g.line("%s%s", v.Name, rx.Pick(g.rt, "incdec", "++", "--"))
 		}
 	case t.K == "string":
-		if rapid.Bool().Draw(g.rt, "strplus") {
+		// inside loops and functions (which may be called from loops) a string only grows by literals: s += s
+		// repeated a few dozen times is a resource exhaustion no property is about
+		grow := g.inLoop == 0 && g.curFn == nil
+		switch {
+		case rapid.Bool().Draw(g.rt, "strplus") && grow:
 			g.line("%s += %s", v.Name, g.expr(t, 1))
-		} else {
+		case grow:
 			g.line("%s = %s", v.Name, g.expr(t, 2))
+		case rapid.Bool().Draw(g.rt, "strlitplus"):
+			g.line("%s += %s", v.Name, g.lit(t))
+		default:
+			g.line("%s = %s", v.Name, g.lit(t))
 		}
 	case t.K == "bool":
 		g.line("%s = %s", v.Name, g.expr(t, 2))
@@ -776,7 +784,7 @@ func (g *G) assignStmt() {
 				g.line("%s = append(%s, %s)", v.Name, v.Name, g.expr(t.Elem, 1))
 			}
 		default:
-			if o := g.pickVar("spreadsrc", func(o *Var) bool { return o.T.eq(t) }); o != nil {
+			if o := g.pickVar("spreadsrc", func(o *Var) bool { return o.T.eq(t) }); o != nil && g.inLoop == 0 {
 				g.meta.feat("appendspread")
 				g.line("%s = append(%s, %s...)", v.Name, v.Name, o.Name)
 			} else {
